@@ -212,6 +212,12 @@ int main(int argc, char** argv) {
         2, 1, 2, 4);
     add("BulkSynchronous", R<BulkSynchronous<C1>>(), 0, P["chain"], cd, {2}, 2,
         -1, 2, 4);
+    add("BulkSynchronous", R<BulkSynchronous<C1>>(), 0, P["side-chain"], cd,
+        {2}, 2, 1, 2, 4);
+    add("BulkSynchronous", R<BulkSynchronous<C1>>(), 0, P["side-chain"], cd,
+        {1, 1}, 2, -1, 2, 4);
+    add("BulkSynchronous", R<BulkSynchronous<C1>>(), 0, P["side-chain"], cd,
+        {3}, 3, -1, 1, 3);
     add("BulkSynchronous", R<BulkSynchronous<C1>>(), 0, P["tree"], cd, {2, 1},
         3, 1, 1, 3);
     add("BulkSynchronous", R<BulkSynchronous<C1>>(), 0, P["fan"], cd, {3}, 3,
@@ -236,6 +242,7 @@ int main(int argc, char** argv) {
     add("OBIM-barrier", R<OB>(), 1, P["help-mid2"], cd, {3}, 3, -1, 1, 3);
     add("OBIM-barrier-mono", R<OBM>(), 1, P["help-mid"], cd, {3}, 3, -1, 1, 3);
     add("OBIM-barrier-mono", R<OBM>(), 1, P["chain"], cd, {2}, 2, 1, 2, 4);
+    add("OBIM-barrier", R<OB>(), 1, P["side-chain"], cd, {2}, 2, -1, 2, 4);
     add("OBIM-barrier-mono", R<OBM>(), 1, P["fan"], cd, {1, 1}, 2, -1, 2, 4);
     add("OBIM-barrier-nobsp", R<OBN>(), 1, P["sparse"], cd, {2}, 2, 1, 2, 4);
     add("OBIM-barrier-nobsp", R<OBN>(), 1, P["tree"], cd, {2, 1}, 3, -1, 1, 3);
